@@ -177,6 +177,7 @@ type Run struct {
 	problems []string
 	known    *KnownFindings
 	alt      map[string]*SolverPool
+	races         int
 	portfolioWins int
 }
 
@@ -911,6 +912,26 @@ var debugObls bool
 
 // solvePortfolio: the primary solver decides; floating-point queries and queries the primary leaves
 // undecided go to all three solvers concurrently and the first definite verdict wins.
+func (r *Run) tryRace() bool {
+	r.mu.Lock()
+	defer r.mu.Unlock()
+	lim := r.o.Jobs / 4
+	if lim < 1 {
+		lim = 1
+	}
+	if r.races >= lim {
+		return false
+	}
+	r.races++
+	return true
+}
+
+func (r *Run) raceDone() {
+	r.mu.Lock()
+	r.races--
+	r.mu.Unlock()
+}
+
 func (r *Run) solvePortfolio(q *Query) *SolveResult {
 	r.mu.Lock()
 	if r.alt == nil {
@@ -971,11 +992,29 @@ func (r *Run) solvePortfolio(q *Query) *SolveResult {
 				others = nil
 			}
 		case <-grace:
-			// the primary is taking long: race the other solvers against it
-			for _, k := range others {
-				launch(k)
-				pending++
+			// the primary is taking long: race the other solvers against it - but only a few races at
+			// a time (each adds three solver processes; an overloaded machine makes every query slow and
+			// racing all of them makes it slower still)
+			if len(others) == 0 {
+				break
 			}
+			if !r.tryRace() {
+				grace = time.After(30 * time.Second)
+				break
+			}
+			var wg sync.WaitGroup
+			for _, k := range others {
+				k := k
+				wg.Add(1)
+				pending++
+				go func() {
+					defer wg.Done()
+					res := r.alt[k].Solve(q, r.o.Timeout, true)
+					res.Raw = k + ": " + res.Raw
+					ch <- res
+				}()
+			}
+			go func() { wg.Wait(); r.raceDone() }()
 			others = nil
 		}
 	}
